@@ -16,6 +16,8 @@ import (
 func init() {
 	reg(&core.RuleInfo{Name: "TAG-ARITY", Props: []string{"C02", "C03", "C04", "C05", "C06"}, Engine: "INT", Floor: 6, Confirmed: 11,
 		Doc: "reads of tag[1] execute exactly under len(tag) >= 2", Run: runTagArity})
+	reg(&core.RuleInfo{Name: "DTAG-FIRST", Props: []string{"C04", "C05", "C06"}, Engine: "INT", Floor: 3, Confirmed: 3,
+		Doc: "the d value is that of the first tag NAMED d: the name test of the d search is reached by every tag that has a name", Run: runDTagFirst})
 }
 
 // fileOf returns the base name of the file fn is declared in.
@@ -140,6 +142,127 @@ func runTagArity(c *core.Ctx) {
 			c.Bad(props, fname(c, g.fn), construct, g.pos, "may execute with "+g.subj+" ∈ "+g.union.String()+": a one-element tag makes the read panic (want [2,+∞))")
 		default:
 			c.Bad(props, fname(c, g.fn), construct, g.pos, "executes only when "+g.subj+" ∈ "+g.union.String()+": tags with extra elements (e.g. a relay hint as third element) are ignored (want [2,+∞))")
+		}
+	}
+}
+
+// ---------------------------------------------------------------- DTAG-FIRST
+
+// runDTagFirst: the address of an addressable event carries the value of its FIRST d tag,
+// the empty value when that tag is bare (`["d"]`). Structural necessary condition: where a
+// tag's name is compared with "d" — directly, or inside a module helper that is handed "d"
+// as the name to look for — the read of tag[0] is reached by every tag that has a name
+// (len(tag) ∈ [1,+∞) ⊆ the lengths under which it executes). A search that looks only at tags
+// with a value (`len(tag) >= 2 && tag[0] == name`) passes over a bare first d tag and files the
+// event under a later d tag's value (seed C04-p). Whether the value is then read behind its own
+// length test is TAG-ARITY's business.
+func runDTagFirst(c *core.Ctx) {
+	P := c.P
+	type site struct {
+		fn    *ssa.Function
+		in    ssa.Instruction
+		x     ssa.Value
+		via   string
+		props []string
+	}
+	var sites []site
+	seen := map[ssa.Instruction]bool{}
+	tagRead0 := func(v ssa.Value) (ssa.Instruction, ssa.Value, bool) {
+		v = an.Unwrap(v)
+		if u, ok := v.(*ssa.UnOp); ok {
+			v = u.X
+		}
+		switch r := v.(type) {
+		case *ssa.IndexAddr:
+			if k, ok := an.ConstInt(r.Index); ok && k == 0 && isTagType(r.X.Type()) {
+				return r, r.X, true
+			}
+		case *ssa.Index:
+			if k, ok := an.ConstInt(r.Index); ok && k == 0 && isTagType(r.X.Type()) {
+				return r, r.X, true
+			}
+		}
+		return nil, nil, false
+	}
+	isD := func(v ssa.Value) bool {
+		s, ok := an.ConstStr(v)
+		return ok && s == "d"
+	}
+	var withAnon func(g *ssa.Function, f func(*ssa.Function))
+	withAnon = func(g *ssa.Function, f func(*ssa.Function)) {
+		f(g)
+		for _, a := range g.AnonFuncs {
+			withAnon(a, f)
+		}
+	}
+	for _, fn := range P.ModFuncs {
+		c.CountFuncs(1)
+		an.Instrs(fn, func(in ssa.Instruction) {
+			switch v := in.(type) {
+			case *ssa.BinOp:
+				// tag[0] == "d" / != "d"
+				for _, pair := range [][2]ssa.Value{{v.X, v.Y}, {v.Y, v.X}} {
+					if !isD(pair[1]) {
+						continue
+					}
+					if r, x, ok := tagRead0(pair[0]); ok && !seen[r] {
+						seen[r] = true
+						sites = append(sites, site{fn: fn, in: r, x: x, via: "compared with \"d\"", props: tagAttribution(c, fn)})
+					}
+				}
+			case *ssa.Call:
+				g := an.StaticCallee(&v.Call)
+				if g == nil || !an.InModuleFn(g) {
+					return
+				}
+				handsD := false
+				for _, a := range v.Call.Args {
+					if isD(a) {
+						handsD = true
+					}
+					if elems, ok := an.VariadicElems(a); ok {
+						for _, e := range elems {
+							if isD(e) {
+								handsD = true
+							}
+						}
+					}
+				}
+				if !handsD {
+					return
+				}
+				withAnon(g, func(h *ssa.Function) {
+					an.Instrs(h, func(hi ssa.Instruction) {
+						val, isVal := hi.(ssa.Value)
+						if !isVal {
+							return
+						}
+						if r, x, ok := tagRead0(val); ok && r == hi && !seen[r] {
+							seen[r] = true
+							sites = append(sites, site{fn: h, in: r, x: x, via: "in " + fname(c, g) + ", handed \"d\" as the name by " + fname(c, fn), props: tagAttribution(c, fn)})
+						}
+					})
+				})
+			}
+		})
+	}
+	want := an.Range(1, an.PosInf)
+	for _, s := range sites {
+		c.CountSites(1)
+		subj := "len(" + an.PathOf(s.x) + ")"
+		construct := "name test of the d search (" + strings.TrimSuffix(strings.TrimPrefix(subj, "len("), ")") + ")"
+		pos := P.Pos(s.in.Pos())
+		fr := an.ConstFrame(subj)
+		set, n, ok := fr.ReachSet(s.fn, s.in.Block(), nil, nil)
+		c.CountPaths(n)
+		if !ok {
+			c.Unknown(s.props, fname(c, s.fn), construct, pos, "path enumeration gave up")
+			continue
+		}
+		if want.Subset(set) {
+			c.OK(s.props, fname(c, s.fn), construct, pos, "tag[0] ("+s.via+") is read whenever "+subj+" ∈ "+set.String()+" ⊇ [1,+∞): every tag that has a name is looked at")
+		} else {
+			c.Bad(s.props, fname(c, s.fn), construct, pos, "tag[0] ("+s.via+") is read only when "+subj+" ∈ "+set.String()+": a bare first d tag ([\"d\"], the empty d value) is passed over and the event is filed under a later d tag's value — two versions of one address are both retained (want ⊇ [1,+∞))")
 		}
 	}
 }
